@@ -1,5 +1,6 @@
 import ColumnVerif.Model.Filter
 import ColumnVerif.Model.Snapshot
+import ColumnVerif.Model.StateWire
 import Driver.Util
 /-! `store` mode: collections, transactions, filters, snapshots and replicas driven by script lines.
     Everything here is parsing and printing; all behaviour is `ColumnVerif.Model.*`. -/
@@ -437,6 +438,15 @@ def stepColl (st : St) (cid : String) (c : Coll) (toks : List String) : St × St
       let c' := { c with store := s' }
       let (c', tr) := trigDelta c'
       fin c' ("ok" ++ tr)
+  | ["statehash"] =>
+    -- the bytes `writeState` hands to the compressor, with every chunk's last commit id replaced by its rank
+    let (snap, p) := s.snapshot
+    if p then ({ st with dead := true }, "panic") else
+    let rk := ranks s.commits.toList
+    let snap' : Snap := { snap with chunks := snap.chunks.zipIdx.map (fun (c, i) => { c with lastCommit := rk.getD i 0 }) }
+    let bs := ColumnVerif.Wire.encState snap'
+    let h := bs.foldl (fun (h : UInt64) b => (h ^^^ b.toUInt64) * 1099511628211) 14695981039346656037
+    (st, s!"state len={bs.length} fnv={h}")
   | ["dump"] => (st, dump s)
   | ["count"] => (st, s!"count={s.count}")
   | ["snapshot", sid] =>
